@@ -54,23 +54,23 @@ def check(ctx):
             seen[sig] = (p, parts)
     for sig, (p, parts) in seen.items():
         check_template(ctx, f, rec, st, p, parts, schema, extras, key_colon, table)
-    r20_4_guard(ctx, f, rec, st, out, table)
-    r20_5(ctx, f, rec, st, region, out, handle)
-    r20_6(ctx, f, handle)
-    r20_7(ctx, f, table)
+    ctx.run(r20_4_guard, f, rec, st, out, table)
+    ctx.run(r20_5, f, rec, st, region, out, handle)
+    ctx.run(r20_6, f, handle)
+    ctx.run(r20_7, f, table)
     # "optional fields are those of the input": the parser's acceptance of the tag grammar is shared with C16
     from . import c16
 
     info16 = tag_regex_info(pf, loop, "R16.1")
-    c16.r16_1(ctx, pf, loop, info16)
-    c16.r16_2(ctx, pf, loop)
+    ctx.run(c16.r16_1, pf, loop, info16)
+    ctx.run(c16.r16_2, pf, loop)
     ctx.not_decided.append("nothing of C20 beyond the TSV being tab-separated with columns read, haplotype, phase set, contig")
     # mechanisms this property rests on (see shared.py): a change there is reported here as well
     from . import shared as _sh
 
-    _sh.gaf_reader(ctx)
-    _sh.tag_parser(ctx)
-    _sh.cli_layer(ctx, "gaftools.cli.phase")
+    ctx.run(_sh.gaf_reader)
+    ctx.run(_sh.tag_parser)
+    ctx.run(_sh.cli_layer, "gaftools.cli.phase")
 
 
 def check_template(ctx, f, rec, st, p, parts, schema, extras, key_colon, table):
